@@ -247,7 +247,7 @@ def check(tier, seed, only=None, skip_a=False, skip_b=False):
     cov, findings, undecided, errors = framework.run_tier_a(PROP, hs)
   cov["trusted_base"] = ASSUMPTIONS
   from contracts import callee
-  cov["assumed_callee_contracts"] = [{"callee": k, "stated_in": "contracts/callee.py", "discharged_in_this_run_by": v} for k, v in callee.DISCHARGED_BY.items()]
+  cov["assumed_callee_contracts"] = callee.assumed("ClockTime.from_seconds")
   cov["explanation"] = ("Tier A (proved for all rational times, per frame rate): the inverse lemmas of the three time-expression syntaxes "
                         "(exact on representable times, < 1 unit otherwise, order kept, well-formed fields); the WHOLE write -> read round trip "
                         "on document shapes with symbolic timing (real writer, real reader on the same element tree, time attributes as formatted "
